@@ -280,7 +280,7 @@ fn one_pass(mut case: Case) -> Case {
 }
 
 /// free mode asserts termination only: the endless source trips after this many elements (seconds of other threads' work)
-pub const FREE_BUDGET: u32 = 2_000_000;
+pub const FREE_BUDGET: u32 = 300_000;
 
 fn resolved_threads_chunk(case: &Case) -> (usize, usize) {
     let (nt, cs) = case.final_params();
@@ -297,6 +297,10 @@ fn resolved_threads_chunk(case: &Case) -> (usize, usize) {
 
 pub fn adjust_c10(case: Case) -> Case {
     let mut case = one_pass(case);
+    // keep expansions small: a broken early exit must be cheap to observe (it consumes the whole budget)
+    for s in case.chain.iter_mut() {
+        s.fan = s.fan.min(3);
+    }
     if !matches!(case.term, Term::Find { .. } | Term::First | Term::Any { .. } | Term::All { .. }) {
         case.term = Term::First;
     }
@@ -390,7 +394,7 @@ fn check_c10(case: &Case) -> Verdict {
         }
         if trips == 3 {
             v.fail = Some(Verdict::fail(
-                "the endless source was consumed up to its budget (2M elements) three times in a row: no early exit",
+                "the endless source was consumed up to its budget (300k elements) three times in a row: no early exit",
                 generic_sig(case, "no-early-exit"),
             ));
             return v;
@@ -569,7 +573,7 @@ fn bucket(n: usize) -> &'static str {
 pub fn c10() -> PropDef {
     PropDef {
         id: "C10",
-        rule: "cases: proptest over (endless or long by-value iterator / Vec source, one-pass chain, params incl. num_threads(1), find|first|any|all, mode) with the first match planted at a generated position and further matches after it; scheduled mode decides the bound (no closure call by the finder after the first match-in-time, every other thread starts at most chunk-size further elements, iterator asked <= threads x chunk more, identical work with a 50x longer tail), free mode decides termination on an endless source (budget 2M, three consecutive trips required), sequential mode must equal the lazy std evaluation log; non-trivial: first match at source position >= 2 x chunk and >=2 workers evaluating before it was found (parallel) / input remains after the match and chain non-empty (sequential); distinct by case hash",
+        rule: "cases: proptest over (endless or long by-value iterator / Vec source, one-pass chain, params incl. num_threads(1), find|first|any|all, mode) with the first match planted at a generated position and further matches after it; scheduled mode decides the bound (no closure call by the finder after the first match-in-time, every other thread starts at most chunk-size further elements, iterator asked <= threads x chunk more, identical work with a 50x longer tail), free mode decides termination on an endless source (budget 300k, three consecutive trips required), sequential mode must equal the lazy std evaluation log; non-trivial: first match at source position >= 2 x chunk and >=2 workers evaluating before it was found (parallel) / input remains after the match and chain non-empty (sequential); distinct by case hash",
         free: mk_free(|c| {
             c.src = SrcClass::Deep;
             c.terms = vec![TermClass::ShortCircuit];
